@@ -6,6 +6,7 @@ import (
 	"math"
 	"math/rand/v2"
 	"sort"
+	"os"
 	"strings"
 	"time"
 
@@ -664,6 +665,8 @@ func c20Oracle(res *RunResult) []Violation {
 	switch part {
 	case "alerts":
 		return alertsOracle("C20", res)
+	case "crud":
+		return crudOracle("C20", res)
 	}
 	return nil
 }
@@ -674,11 +677,19 @@ func init() {
 		Level: "exploration",
 		Rule: "part A (alerts): each case is one seeded history of 5-21 simulated minutes on the fake clock: 1-3 log alerts (8 query shapes: plain and grouped count/sum/min/max/avg; 5 conditions; interval 1-3 min, window N x interval incl. non-multiples) are created through the HTTP API and evaluated by the node's own cron scheduler; every minute a seeded batch of events is ingested 20 s after the tick; 0-2 restarts; webhook deliveries over the simulated network with seeded delivery failures; scheduler pre-emption/site delays. Oracle: every history row's state equals the N-window rule over reference outcomes (independent aggregate evaluator over the events inside each evaluation window), evaluations happen once per interval, state/num_evaluations reads agree with the history, the history is append-only, notifications are exactly: one per Firing evaluation (cool-down 0), one on return to Normal after a delivered Firing, none otherwise. distinct = (alert settings, outcome sequence) tuples; non-trivial = some alert reached Firing and left it",
 		Run: func(c *Ctx) {
-			n := 48
+			n := 640
 			if !c.Quick() {
-				n = 4000
+				n = 40000
 			}
-			c.Explore(n, func(r *rand.Rand, i int) *plan.Plan { return genAlertPlan(r, c.Quick()) }, func(res *RunResult) (string, bool, any) {
+			c.Explore(n, func(r *rand.Rand, i int) *plan.Plan {
+				if only := os.Getenv("VERIF_C20_PART"); only == "alerts" || (only == "" && i%8 == 0) {
+					return genAlertPlan(r, c.Quick())
+				}
+				return genCrudPlan(r, c.Quick())
+			}, func(res *RunResult) (string, bool, any) {
+				if part, _ := res.Plan.Params["part"].(string); part == "crud" {
+					return crudAccount(c, res)
+				}
 				return alertsAccount(c, res)
 			})
 		},
@@ -762,4 +773,36 @@ func alertsAccount(c *Ctx, res *RunResult) (string, bool, any) {
 	sb, _ := json.Marshal(specs)
 	key = string(sb) + "|" + strings.Join(states, ",")
 	return key, nontrivial, map[string]any{"alerts": specs, "state_sequences": states, "deliveries": nd, "incarnations": len(res.Plan.Incs)}
+}
+
+func crudAccount(c *Ctx, res *RunResult) (string, bool, any) {
+	kinds := map[string]int{}
+	nops := 0
+	var walk func(ops []plan.Op)
+	walk = func(ops []plan.Op) {
+		for i := range ops {
+			if ops[i].Kind == "par" {
+				c.Probe("crud_concurrent_phase", 1)
+				for _, cl := range ops[i].Par {
+					walk(cl)
+				}
+				continue
+			}
+			if cm, ok := ops[i].Args["c"].(map[string]any); ok {
+				kinds[cop(cm).s("t")]++
+				nops++
+			}
+		}
+	}
+	for _, inc := range res.Plan.Incs {
+		walk(inc.Ops)
+	}
+	c.Probe("crud_ops", nops)
+	c.Probe("crud_restarts", len(res.Plan.Incs)-1)
+	c.mu.Lock()
+	c.faultCounts["restart"] += len(res.Plan.Incs) - 1
+	c.mu.Unlock()
+	kb, _ := json.Marshal(kinds)
+	return fmt.Sprintf("crud|%d|%s|%v", len(res.Plan.Incs), kb, res.Plan.Params["stores"]), len(res.Plan.Incs) > 1 || res.Plan.Params["concurrent"] == true,
+		map[string]any{"part": "crud", "ops": nops, "kinds": kinds, "incarnations": len(res.Plan.Incs), "stores": res.Plan.Params["stores"], "concurrent": res.Plan.Params["concurrent"]}
 }
